@@ -9,7 +9,8 @@ import PilotaModel.Lemmas.KeepFwd
 
   Full statement (DESIGN.md section 8, `keep_roundtrip`):
     decode dw n (encodeKeep dr n (decodeKeep dr n (encode dw n v))) = .ok v   for dr ⊆ dw.
-  Proved here — the reader half in full: for EVERY document, declared type, well-typed wire value in the shadow's
+  Proved here in full as `keep_roundtrip_total` (no hypothesis about the reader's outcome: `keep_accepts` shows it accepts).
+  The reader half, for arbitrary wire values: for EVERY document, declared type, well-typed wire value in the shadow's
   domain, endianness, depth budget and trailing input, the retention decoder run on the encoding returns exactly the
   value-level shadow `projTyK` (`keep_decode_is_projection`, `keep_tolerant`; Lemmas/TolerantK.lean, simultaneous
   induction over the five mutually recursive retention decoders), and whenever the field loop of a struct succeeds,
@@ -168,29 +169,31 @@ theorem keep_roundtrip (er ew : Endian) (dpr dpw : Option Nat) (hedr : EndianOk 
     simpa [withRest, mapOut] using this
 
 /-- **The retaining reader accepts every typed value within its skipper's depth budget** (`dpr = none`, the unchecked
-codec: no limit), with the same result for every sufficiently large recursion budget. -/
+codec: no limit), with the same result for every sufficiently large recursion budget; the result is a Rust value (integers
+within their types, sizes below 2^31) whenever the original is, and has its wire type. -/
 theorem keep_accepts (dw : Doc) (keep : String → Field → Bool) (dpr : Option Nat) (hd : dw.fieldsOk)
     (f : Nat) (ty : STy) (w : TVal) (ht : hasTy dw f ty w = true) (ha : admits dpr w.need) :
-    ∃ w' B, ∀ fK, B ≤ fK → projTyK (restrict dw keep) dpr fK ty w = some (.ok w') :=
-  keep_accepts_all dw keep dpr hd f ty w ht ((admitsB_iff dpr _).mpr ha)
+    ∃ w' B, (w.wt = true → w'.wt = true) ∧ w'.ttype = w.ttype ∧
+      ∀ fK, B ≤ fK → projTyK (restrict dw keep) dpr fK ty w = some (.ok w') := by
+  obtain ⟨w', B, hs, hB⟩ := keep_accepts_all dw keep dpr hd f ty w ht ((admitsB_iff dpr _).mpr ha)
+  exact ⟨w', B, hs.1, hs.2, hB⟩
 
-/-- **C13 as one statement, bytes level, no acceptance hypothesis**: for every writer document with distinct field ids per
-struct, every reader that lacks any set of struct fields, every typed value `w` of a declared type nested no deeper than
-the reader's skipper budget, every pair of binary-family protocols and all trailing inputs: the retaining reader decodes
-the encoding of `w` to some `w'` leaving the trailing input, and (when `w'` is a Rust value) the full reader decodes the
-re-encoding of `w'` to exactly `w`, leaving its trailing input - for all sufficiently large recursion budgets. -/
+/-- **C13 as one statement, bytes level, no side hypotheses about the reader**: for every writer document with distinct
+field ids per struct, every reader that lacks any set of struct fields, every typed Rust value `w` of a declared type nested
+no deeper than the reader's skipper budget, every pair of binary-family protocols and all trailing inputs: the retaining
+reader decodes the encoding of `w` to some `w'` leaving the trailing input, and the full reader decodes the re-encoding of
+`w'` to exactly `w`, leaving its trailing input - for all sufficiently large recursion budgets (the emitted code has none). -/
 theorem keep_roundtrip_total (er ew : Endian) (dpr dpw : Option Nat) (hedr : EndianOk er dpr) (hedw : EndianOk ew dpw)
     (dw : Doc) (keep : String → Field → Bool) (hd : dw.fieldsOk) (n : String) (f : Nat) (w : TVal)
     (ht : hasTy dw f (.ref n) w = true) (hw : w.wt = true) (ha : admits dpr w.need) (rest rest' : Bytes) :
-    ∃ w' B, (∀ fK, B ≤ fK → decTyK er dpr (restrict dw keep) fK (.ref n) (Binary.enc er w ++ rest) = .ok (w', rest)) ∧
-      (w'.wt = true → ∃ G, ∀ g, G ≤ g → decTy (binRd ew dpw) dw g (.ref n) (Binary.enc ew w' ++ rest') = .ok (w, rest')) := by
-  obtain ⟨w', B, hB⟩ := keep_accepts dw keep dpr hd f (.ref n) w ht ha
-  refine ⟨w', B, fun fK hf => ?_, fun hw' => ?_⟩
+    ∃ w' B G, (∀ fK, B ≤ fK → decTyK er dpr (restrict dw keep) fK (.ref n) (Binary.enc er w ++ rest) = .ok (w', rest)) ∧
+      (∀ g, G ≤ g → decTy (binRd ew dpw) dw g (.ref n) (Binary.enc ew w' ++ rest') = .ok (w, rest')) := by
+  obtain ⟨w', B, hwt, _, hB⟩ := keep_accepts dw keep dpr hd f (.ref n) w ht ha
+  obtain ⟨_, G, hG⟩ := keep_roundtrip_value dw keep dpr dpw hd f (.ref n) w w' B ht (hB B (Nat.le_refl _))
+  refine ⟨w', B, G, fun fK hf => ?_, fun g hg => ?_⟩
   · have := keep_tolerant er dpr (restrict dw keep) (.ref n) w rest fK (.ok w') hedr hw (hB fK hf)
     simpa [withRest, mapOut] using this
-  · obtain ⟨_, G, hG⟩ := keep_roundtrip_value dw keep dpr dpw hd f (.ref n) w w' B ht (hB B (Nat.le_refl _))
-    refine ⟨G, fun g hg => ?_⟩
-    have := (corr_all ew dpw dw hedw g).1 (.ref n) w' rest' (.ok w) hw' (hG g hg)
+  · have := (corr_all ew dpw dw hedw g).1 (.ref n) w' rest' (.ok w) (hwt hw) (hG g hg)
     simpa [withRest, mapOut] using this
 
 /-! non-vacuity of `keep_roundtrip`: the writer's document has a recursive struct with a default, a list of itself and a
